@@ -22,7 +22,9 @@
 (* congestion window), on WHICH duplicate the fast retransmit happens and  *)
 (* what the timer values are is property C17's business and left open.     *)
 (*                                                                         *)
-(* Paths: FIFO queues.  Loss is scripted by transmission number: the i-th  *)
+(* Paths: FIFO queues when cfg.fifo = 1; with cfg.fifo = 0 a path delays   *)
+(* every packet by its own amount, so ANY packet in flight may be the next *)
+(* to arrive (reordering).  Loss is scripted by transmission number: the i-th *)
 (* data transmission is dropped iff i \in cfg.dd, the i-th acknowledgement *)
 (* emitted by the sink iff i \in cfg.ad (finite sets).                     *)
 (*                                                                         *)
@@ -51,7 +53,7 @@ VARIABLES nxt,      \* sender: next new segment (= next_seq / MSS)
           txn,      \* data transmissions so far
           akn,      \* acknowledgements emitted by the sink so far
           crashed,  \* an exception escaped
-          cfg       \* frozen: [n, dd, ad, timely]
+          cfg       \* frozen: [n, dd, ad, timely, fifo]
 lvars == <<nxt, una, timers, dq, aq, rcvd, txn, akn, crashed, cfg>>
 
 InitWith(c) ==
@@ -91,22 +93,26 @@ TimerFire(s) ==
   /\ Resend(s)
   /\ UNCHANGED <<nxt, una, timers, aq, rcvd, akn, cfg>>
 
-(* ---- the head of the data path arrives at the sink, which answers with a cumulative ACK ---- *)
-SinkRecv ==
-  /\ ~crashed /\ dq # <<>>
-  /\ LET s == Head(dq)
+Without(q, i) == SubSeq(q, 1, i - 1) \o SubSeq(q, i + 1, Len(q))
+MayArrive(q, i) == i \in 1..Len(q) /\ (cfg.fifo = 1 => i = 1)
+
+(* ---- a packet of the data path (the head, on a FIFO path) arrives at the sink, which answers with a cumulative ACK ---- *)
+SinkRecvAt(i) ==
+  /\ ~crashed /\ MayArrive(dq, i)
+  /\ LET s == dq[i]
          R == rcvd \cup {s}
      IN /\ rcvd' = R
         /\ akn' = Count(akn, cfg.ad)
         /\ aq' = IF (akn + 1) \in cfg.ad THEN aq ELSE Append(aq, [ack |-> Pfx(R), trig |-> s])
-  /\ dq' = Tail(dq)
+  /\ dq' = Without(dq, i)
   /\ UNCHANGED <<nxt, una, timers, txn, crashed, cfg>>
+SinkRecv == \E i \in 1..Len(dq) : SinkRecvAt(i)
 
-(* ---- the head of the ACK path arrives at the sender; fr: this ACK makes it fast-retransmit ---- *)
-AckArrive(fr) ==
-  /\ ~crashed /\ aq # <<>>
-  /\ LET a == Head(aq).ack
-         g == Head(aq).trig
+(* ---- an acknowledgement of the ACK path arrives at the sender; fr: this ACK makes it fast-retransmit ---- *)
+AckArriveAt(i, fr) ==
+  /\ ~crashed /\ MayArrive(aq, i)
+  /\ LET a == aq[i].ack
+         g == aq[i].trig
      IN IF a > una
         THEN \* new data acknowledged, cumulatively
              /\ ~fr
@@ -118,10 +124,11 @@ AckArrive(fr) ==
              /\ UNCHANGED <<una, timers>>
              /\ IF fr THEN (DevF14 \/ una \in timers) /\ Resend(una)
                       ELSE UNCHANGED <<txn, dq, crashed>>
-        ELSE \* below the mark: ignored
+        ELSE \* below the mark (an old acknowledgement overtaken by a newer one): ignored, the mark never moves back
              /\ ~fr /\ UNCHANGED <<una, timers, txn, dq, crashed>>
-  /\ aq' = Tail(aq)
+  /\ aq' = Without(aq, i)
   /\ UNCHANGED <<nxt, rcvd, akn, cfg>>
+AckArrive(fr) == \E i \in 1..Len(aq) : AckArriveAt(i, fr)
 
 (* ---------------- clauses ---------------- *)
 NoCrash == ~crashed
@@ -129,8 +136,8 @@ NoCrash == ~crashed
 MarkIsTrue == una <= Pfx(rcvd) /\ una <= nxt /\ nxt <= cfg.n
 \* exactly the sent-and-unacknowledged segments are held with a pending timer
 TimersAreOutstanding == timers = una..(nxt - 1)
-\* acknowledgements travel in non-decreasing order and never exceed what the sink holds
-AcksOrdered == /\ \A i, j \in 1..Len(aq) : i <= j => aq[i].ack <= aq[j].ack
+\* acknowledgements are emitted in non-decreasing order (and stay so on a FIFO path) and never exceed what the sink holds
+AcksOrdered == /\ cfg.fifo = 1 => \A i, j \in 1..Len(aq) : i <= j => aq[i].ack <= aq[j].ack
                /\ \A i \in 1..Len(aq) : aq[i].ack <= Pfx(rcvd)
 \* only sent segments travel
 OnlySentTravels == \A i \in 1..Len(dq) : dq[i] < nxt
